@@ -432,7 +432,9 @@ class LoopSpec:
     loops (None for `while`).  kinds: kinds of variables first assigned inside the body.
     variant(env, st, i) -> Int term that must decrease and stay >= 0 (while loops)."""
 
-    def __init__(self, inv=None, kinds=None, variant=None, modifies=None, hints=None):
+    def __init__(self, inv=None, kinds=None, variant=None, modifies=None, hints=None, fall_through=None, exit=None):
+        self.fall_through = fall_through   # search loops: fall_through(env, st, x) -> facts when the body falls through for member x
+        self.exit = exit                   # search loops: exit(env, st) -> facts after the loop (forall-closure of fall_through)
         self.hints = hints          # hints(env, st, i) -> lemma instances (valid facts) assumed in the body
         self.inv = inv or (lambda env, st, i: [])
         self.kinds = kinds or {}
@@ -882,6 +884,8 @@ class Exec:
                 v = self.expr(e.value)
                 if isinstance(v, TupV):
                     items.extend(v.items)
+                elif e is n.elts[-1] and hasattr(self.theory, "tuple_star_tail"):
+                    return self.theory.tuple_star_tail(self, items, v)
                 else:
                     raise Untranslatable("starred non-tuple")
             else:
